@@ -49,9 +49,21 @@ def run(chk):
                 c["empty_buckets"] = [[rng.choice(S.VARIANTS), rng.choice(S.ARCHES)]]       # a cell without images is not content
             cases.append(c)
     cases = cases[:N[chk.tier]]
+    # boundary probes: one numeric attribute of one image carries a value next to its documented type (a float as os.stat
+    # returns it, a digit string). The library may refuse such an image; if it agrees to write it, the cycle must preserve it.
+    import copy as _copy
+    for c in [c for c in cases if c["ops"]][:max(20, N[chk.tier] // 6)]:
+        p = _copy.deepcopy(c)
+        img = p["pool"][p["ops"][0][2]]
+        field = rng.choice(["mtime", "mtime", "size", "disc_number", "disc_count"])
+        img[field] = rng.choice([1700000500.75, 1700000500.0, 2.5, "12"])
+        p["probe"] = field
+        cases.append(p)
 
     def oracle(c, r):
         if r[0] != "ok":
+            if c.get("probe"):
+                return None
             if all(True for _ in c["pool"]):
                 return "a manifest of valid images could not be written: %r" % (r,)
             return None
